@@ -69,8 +69,21 @@ static void scrib(void* p, std::size_t n, unsigned v)
 template <class T>
 struct Ops
 {
-    static void* create() { return new T(); }
-    static void  destroy(void* p) { delete static_cast<T*>(p); }
+    // "T obj;" in memory that held something else before (a reused stack slot, a recycled heap block): default-initialisation
+    // (no parentheses: nothing zero-fills the storage first) over a changing fill pattern
+    static void* create()
+    {
+        static unsigned n = 0;
+        static const unsigned char fill[4] = {0xA5, 0x00, 0xFF, 0x5A};
+        void* m = ::operator new(sizeof(T));
+        std::memset(m, fill[n++ & 3u], sizeof(T));
+        return new (m) T;
+    }
+    static void destroy(void* p)
+    {
+        static_cast<T*>(p)->~T();
+        ::operator delete(p);
+    }
     static int   ser(const void* p, std::uint8_t* b, std::size_t cap, std::size_t* produced)
     {
         auto r = serialize(*static_cast<const T*>(p), nunavut::support::bitspan(b, cap));
@@ -85,7 +98,12 @@ struct Ops
     }
     static void  assign(void* d, const void* s) { *static_cast<T*>(d) = *static_cast<const T*>(s); }
     static void  move_assign(void* d, void* s) { *static_cast<T*>(d) = std::move(*static_cast<T*>(s)); }
-    static void* clone(const void* s) { return new T(*static_cast<const T*>(s)); }
+    static void* clone(const void* s)
+    {
+        void* m = ::operator new(sizeof(T));
+        std::memset(m, 0xA5, sizeof(T));
+        return new (m) T(*static_cast<const T*>(s));
+    }
     static void  swap(void* a, void* b) { using std::swap; swap(*static_cast<T*>(a), *static_cast<T*>(b)); }
     static vt_t  make(const char* name, void (*corrupt)(void*, unsigned, unsigned), unsigned n_corrupt,
                       void (*scribble)(void*, unsigned, unsigned), unsigned n_scribble)
@@ -118,10 +136,26 @@ static void fail(const char* what, const vt_t* t, long a, long b)
     std::_Exit(3);
 }
 
+// A zero-size region is a pointer no byte of which may be touched: the allocator hands out one usable byte for malloc(0), so that
+// byte is poisoned by hand (and unpoisoned before the region is freed).
+extern "C" void __asan_poison_memory_region(void const volatile* addr, std::size_t size);
+extern "C" void __asan_unpoison_memory_region(void const volatile* addr, std::size_t size);
+static std::uint8_t* alloc_exact(std::size_t len)
+{
+    auto* p = static_cast<std::uint8_t*>(std::malloc(len ? len : 1));
+    if (p != nullptr && len == 0) { __asan_poison_memory_region(p, 1); }
+    return p;
+}
+static void free_exact(std::uint8_t* p, std::size_t len)
+{
+    if (p != nullptr && len == 0) { __asan_unpoison_memory_region(p, 1); }
+    std::free(p);
+}
+
 static std::uint8_t* exact_copy(const std::uint8_t* src, std::size_t len, bool null_if_empty)
 {
     if (len == 0 && null_if_empty) { return nullptr; }
-    auto* p = static_cast<std::uint8_t*>(std::malloc(len ? len : 1));
+    auto* p = alloc_exact(len);
     if (len) { std::memcpy(p, src, len); }
     return p;
 }
@@ -192,8 +226,8 @@ static void do_des(const vt_t* t, slot_t* s, const std::uint8_t* bytes, std::siz
     if (prior == ST_CORRUPT) { n_into_corrupt++; }
     if (prior == ST_MOVED_FROM) { n_into_moved_from++; }
     t->destroy(fresh);
-    std::free(buf);
-    std::free(buf2);
+    free_exact(buf, len);
+    free_exact(buf2, len);
     s->state = (rc == 0) ? ST_VALID : ST_FAILED;
 }
 
@@ -203,7 +237,7 @@ static void do_ser(const vt_t* t, slot_t* s, std::uint32_t cap_arg)
     if (cap_arg == 0xFFFFFFFFu) { cap = t->bufsize; }
     if (cap_arg == 0xFFFFFFFEu) { cap = t->bufsize + 1; }
     if (cap_arg == 0xFFFFFFFDu) { cap = t->bufsize ? t->bufsize - 1 : 0; }
-    auto*       buf      = static_cast<std::uint8_t*>(std::malloc(cap));
+    auto*       buf      = alloc_exact(cap);
     std::size_t produced = 0;
     // a live C++ object is always serialisable-or-error, whatever happened to it before
     const int rc = t->ser(s->obj, buf, cap, &produced);
@@ -217,7 +251,7 @@ static void do_ser(const vt_t* t, slot_t* s, std::uint32_t cap_arg)
     if (s->state == ST_FAILED) { n_ser_after_failed++; }
     if (cap < t->bufsize) { n_small_cap++; }
     if (rc == 0) { n_ser_ok++; } else { n_ser_err++; err_hist[(-rc) & 15]++; }
-    std::free(buf);
+    free_exact(buf, cap);
 }
 
 int main(int argc, char** argv)
